@@ -717,6 +717,16 @@ class AttackGraph():
         if attacker.id in self._id_to_attacker:
             raise ValueError(f'Attacker index {attacker_id} already in use.')
 
+        # Refuse unknown nodes before anything is changed, otherwise the nodes
+        # processed so far would stay compromised by an attacker that is not
+        # part of the graph.
+        for node_id in list(reached_attack_steps) + list(entry_points):
+            if self.get_node_by_id(int(node_id)) is None:
+                msg = ("Could not find node with id %s "
+                       "to add the attacker to.")
+                logger.error(msg, node_id)
+                raise AttackGraphException(msg % node_id)
+
         self.next_attacker_id = max(attacker.id + 1, self.next_attacker_id)
         for node_id in reached_attack_steps:
             node = self.get_node_by_id(node_id)
